@@ -281,6 +281,7 @@ fn events_hash(ev: &[Event]) -> u64 {
             Event::Expand { tid, input } => s.push_str(&format!("E{},{};", tid, input)),
             Event::Perturb { tid, n, seed } => s.push_str(&format!("P{},{},{};", tid, n, seed)),
             Event::Order { tid, policy, seed } => s.push_str(&format!("O{},{},{};", tid, policy, seed)),
+            Event::OrderAt { tid, policy, seed, site } => s.push_str(&format!("O{},{},{},{};", tid, policy, seed, site)),
             Event::Addr => s.push_str("A;"),
         }
     }
@@ -296,6 +297,7 @@ fn host_summary(h: &HostCfg) -> Value {
             Event::Expand { tid, input } => format!("expand(t{},i{})", tid, input),
             Event::Perturb { tid, n, .. } => format!("perturb(t{},{})", tid, n),
             Event::Order { tid, policy, seed } => format!("order(t{},p{},s{})", tid, policy, seed),
+            Event::OrderAt { tid, policy, site, .. } => format!("order(t{},p{},at {})", tid, policy, site),
             Event::Addr => "addr".to_string(),
         })
         .collect();
@@ -555,7 +557,7 @@ fn load_known(verif: &Path) -> Known {
     if let Ok(s) = std::fs::read_to_string(verif.join("known_findings.txt")) {
         for line in s.lines() {
             let line = line.trim();
-            if let Some(rest) = line.strip_prefix("finding: property=C19 signature=\"") {
+            if let Some(rest) = line.strip_prefix("finding: property=C19 key=\"") {
                 if let Some(end) = rest.find('"') {
                     k.findings.push((rest[..end].to_string(), rest[end + 1..].trim().to_string()));
                 }
@@ -578,6 +580,7 @@ fn hostcfg_to_json(h: &HostCfg) -> Value {
             Event::Expand { tid, input } => json!({"op": "expand", "tid": tid, "input": input}),
             Event::Perturb { tid, n, seed } => json!({"op": "perturb", "tid": tid, "n": n, "seed": seed.to_string()}),
             Event::Order { tid, policy, seed } => json!({"op": "order", "tid": tid, "policy": policy, "seed": seed.to_string()}),
+            Event::OrderAt { tid, policy, seed, site } => json!({"op": "order_at", "tid": tid, "policy": policy, "seed": seed.to_string(), "site": site}),
             Event::Addr => json!({"op": "addr", "tid": 0}),
         })
         .collect();
@@ -622,6 +625,7 @@ fn hostcfg_from_json(v: &Value) -> Option<HostCfg> {
             "expand" => Event::Expand { tid, input: e["input"].as_u64()? as u32 },
             "perturb" => Event::Perturb { tid, n: e["n"].as_u64()? as u32, seed: e["seed"].as_str()?.parse().ok()? },
             "order" => Event::Order { tid, policy: e["policy"].as_u64()? as u8, seed: e["seed"].as_str()?.parse().ok()? },
+            "order_at" => Event::OrderAt { tid, policy: e["policy"].as_u64()? as u8, seed: e["seed"].as_str()?.parse().ok()?, site: e["site"].as_str()?.to_string() },
             "addr" => Event::Addr,
             _ => return None,
         });
@@ -655,12 +659,29 @@ fn attribute_sites(env: &Env, backend: Backend, text: &str) -> (Vec<String>, Opt
         }
     }
     let differs = first_divergence(&la, &lb, 1).is_some();
-    (sites.into_iter().collect(), Some(differs))
+    // which of those iterations does the output actually depend on?  reverse one site at a time
+    let mut culprits: Vec<String> = Vec::new();
+    for site in &sites {
+        let mut c = HostCfg::reference();
+        c.events = vec![Event::OrderAt { tid: 0, policy: 1, seed: 0, site: site.clone() }, Event::Expand { tid: 0, input: 0 }];
+        if let Ok(lc) = run_host(env, backend, Build::Hooked, &texts, &c) {
+            if first_divergence(&la, &lc, 1).is_some() {
+                culprits.push(site.clone());
+            }
+        }
+    }
+    if !culprits.is_empty() {
+        return (culprits, Some(differs));
+    }
+    (if differs { sites.into_iter().collect() } else { vec![] }, Some(differs))
 }
 
 struct Report {
     path: PathBuf,
     signature: String,
+    /// what a known-findings entry is matched on: channel + iteration sites (the fault kinds
+    /// the minimiser ends up with vary from seed to seed and are not part of the identity)
+    key: String,
     summary: String,
 }
 
@@ -684,9 +705,10 @@ fn write_replay(cfg: &Cfg, env: &Env, ws: u64, idx: usize, m: &minimise::Minimis
         "backend": m.mw.backend.tag(), "build": m.mw.build.tag(),
         "channel": d.channel, "first_diff": fd,
         "minimal_faults": fault_names(m.minimal_faults),
-        "iterated_sites_with_ge2_entries": sites,
+        "iteration_sites_the_output_depends_on": sites,
         "reversed_iteration_order_alone_changes_output": order_alone,
         "signature": signature,
+        "known_findings_key": format!("channel={} sites={}", d.channel, if sites.is_empty() { "none".to_string() } else { sites.join("+") }),
         "replayable": replayable, "note": note,
         "inputs": m.mw.texts.iter().map(|(i, t)| json!({"id": i, "text": t})).collect::<Vec<_>>(),
         "divergent_input": d.input,
@@ -700,7 +722,8 @@ fn write_replay(cfg: &Cfg, env: &Env, ws: u64, idx: usize, m: &minimise::Minimis
     let _ = std::fs::create_dir_all(&dir);
     let path = dir.join(format!("C19-{}-{}.json", cfg.seed, idx));
     std::fs::write(&path, serde_json::to_string_pretty(&v).unwrap()).expect("write replay");
-    Report { path, signature, summary: fd }
+    let key = format!("channel={} sites={}", d.channel, if sites.is_empty() { "none".to_string() } else { sites.join("+") });
+    Report { path, signature, key, summary: fd }
 }
 
 fn cmd_replay(cfg: &Cfg, path: &Path) -> i32 {
@@ -878,7 +901,7 @@ fn cmd_run(cfg: &Cfg) -> i32 {
             let _ = std::fs::remove_file(&rep.path);
             continue;
         }
-        if let Some((_, desc)) = known.findings.iter().find(|(s, _)| *s == rep.signature) {
+        if let Some((_, desc)) = known.findings.iter().find(|(s, _)| *s == rep.key) {
             let line = format!("KNOWN-FINDING: property=C19 {} [{}] replay={}", desc, rep.signature, rep.path.display());
             println!("{}", line);
             known_lines.push(line);
